@@ -344,6 +344,29 @@ def fLe (hs ho : Nat) : AM Bool := do
   drop t3
   return n2 == 1
 
+/-- an operand of a comparison that is not a `Function`: `None`, or anything else (an `int`, a
+`str`, a `Function` of another class) -/
+inductive AOther
+  | none_
+  | other
+deriving Repr, DecidableEq, Inhabited
+
+/-- `f == x`, `f != x`, `f <= x`, `f < x` with `x` not a `Function`: `== None` is `False`, `!= None`
+is `True` (`if other is None`), everything else `raise NotImplementedError` (`<=`, `<` also for
+`None`).  Nothing changes. -/
+def fCmpOther (op : String) (hs : Nat) (x : AOther) : AM Bool := do
+  let _ ← nodeOwn hs
+  if op == "eq" && x == .none_ then pure false
+  else if op == "ne" && x == .none_ then pure true
+  else AM.throw .notImplemented
+
+/-- `f ^ g`: `dd.autoref.Function` defines no `__xor__` (nor `__rxor__`), so the interpreter raises
+`TypeError`; nothing changes (`bdd.apply('xor', f, g)` is the way) -/
+def fXor (hs ho : Nat) : AM Int := do
+  let _ ← nodeOwn hs
+  let _ ← nodeAny ho
+  AM.throw .type
+
 /-- `Function.__lt__`: `self <= other and self != other` -/
 def fLt (hs ho : Nat) : AM Bool := do
   let le ← fLe hs ho
